@@ -175,10 +175,12 @@ TEXT.update({
              "individual lock / atomic / channel operations, on top of the ChanCaster word model): Sends are serialised (one global order); every subscriber that is subscribed "
              "and between rounds when a Send feeds the caster is owed a copy until it receives it or withdraws; the send phase ends only when nobody is owed; ping.Send's result "
              "= number of subscribers that received the value; nobody is served twice in a round (no pong is available during the send phase); pongs published = receptions; "
-             "Send returns only after every receiver acknowledged; nobody can subscribe while a Send holds sendingMu; Send returns 0 at once with nobody subscribed. Tied by "
+             "Send returns only after every receiver acknowledged; nobody can subscribe while a Send holds sendingMu; Send returns 0 at once with nobody subscribed; ORDER: the "
+             "message a subscriber receives is the last element of the one global order and sits exactly at the position that subscription expects next (set to length+1 when "
+             "subscribing, advanced by one per reception): no gap, no duplicate, nothing armed before the subscription. Tied by "
              "regenerated CFG facts and by concurrent trace acceptance with exact counter / caster-word values and every received value.",
-        note="Trusted: Lean kernel + 3 standard axioms; mutex/rwmutex/cond/atomic/rendezvous semantics modelled; contiguity of each subscription's run is checked only dynamically (open statement).",
-        technique="Lean 4 proof (two inductive invariants, 7 + 13 clauses with sums over unbounded subscribers, 27 actions) + decide over regenerated CFG + concurrent trace acceptance"),
+        note="Trusted: Lean kernel + 3 standard axioms; mutex/rwmutex/cond/atomic/rendezvous semantics modelled; the order clauses are a step theorem (next expected position), not a separate whole-history corollary.",
+        technique="Lean 4 proof (three inductive invariants, 7 + 13 + 3 clauses with sums over unbounded subscribers, 27 actions) + decide over regenerated CFG + concurrent trace acceptance"),
     "C07": dict(
         text="Lean theorems for every reachable state of the same model: no call ever panics with a state-invariant violation (the caster word always equals the number of "
              "subscribers that still owe a receive-or-remove to the Send in progress, also for unsubscribes that land before the CAS, during the send phase, before ever "
